@@ -114,13 +114,12 @@ theorem corePass_with (ic ic' : Ctx) (ctoks : List Tok) (tname : Tok) (rest : Li
 theorem taskPass_with_core (ic ic' : Ctx) (reg : List Ctx) (k : Call) (pre post : List Item) (calls2 : List Call)
     (ctoks : List Tok) (hfl : ic'.flags = ic.flags) (hk : k.items = pre ++ post)
     (hok : ChainOK (some ic) reg (some ic) (k :: calls2))
-    (hpre : endsBare false pre = false)
-    (hcore : CoreStep ic ic' reg (pre.foldl Item.apply k.ctx) ctoks)
+    (hcore : CoreStepB ic ic' reg (pre.foldl Item.apply k.ctx) ctoks)
     (hbody : ∀ t ∈ argvWithCore k pre post ctoks calls2, t ≠ ['-', '-']) :
     taskPass ic reg (argvWithCore k pre post ctoks calls2) =
       .ok { contexts := ic' :: (k :: calls2).map Call.result, unparsed := [], remainder := [] } := by
   obtain ⟨m5, m6, c5, hrun, hfin, hcur6, hni6, hunp6, hi6, hd6⟩ :=
-    run_with_core ic ic' reg false k pre post calls2 ctoks hfl hk hok hpre hcore
+    run_with_core ic ic' reg false k pre post calls2 ctoks hfl hk hok hcore
   have hall : ∀ t ∈ argvWithCore k pre post ctoks calls2, (decide (t ≠ ['-', '-'])) = true := by
     intro t ht; simpa using hbody t ht
   have htw := takeWhile_all (fun (x : Tok) => decide (x ≠ ['-', '-'])) _ hall
@@ -186,7 +185,9 @@ theorem coreStep0_value_spaced (ic : Ctx) (tok v : Tok) (i : Nat) (a a' : Arg) (
     have hhv : m1.handle v = .ok (coreM ic (ic.setArg i a') (some (.cur, i)) true) := by
       unfold M.handle
       have hst1 : m1.st = .context := rfl
-      simp only [hst1, hctx1, hvf, hvinv, Option.isSome_none, Bool.false_eq_true, if_false, reduceCtorEq, hw1, if_true]
+      have hop1 : m1.optionalPending = false := by simp [M.optionalPending, hfa1, ho]
+      simp only [hst1, hctx1, hvf, hvinv, Option.isSome_none, Bool.false_eq_true, if_false, reduceCtorEq, hw1, hop1, Bool.false_and,
+        Bool.not_false, Bool.and_self, if_true]
       unfold M.seeValue M.checkAmbiguity
       simp only [hfa1, ho, bind, Except.bind, ht, if_true, hs, Bool.false_eq_true, if_false]
       simp [M.updFlagArg, m1, m0, M.start, M.ctx, M.setCtx, coreM, M.withCore, Ctx.setArg]
@@ -268,8 +269,7 @@ theorem program_with_core (ic ic' : Ctx) (reg : List Ctx) (k : Call) (pre post :
     (ctoks : List Tok) (hfl : ic'.flags = ic.flags) (hinv : ic'.inverse = ic.inverse) (hmiss' : ic'.missingPositional = [])
     (hk : k.items = pre ++ post)
     (hok : ChainOK (some ic) reg (some ic) (k :: calls2))
-    (hpre : endsBare false pre = false)
-    (hcore : CoreStep ic ic' reg (pre.foldl Item.apply k.ctx) ctoks)
+    (hcore : CoreStepB ic ic' reg (pre.foldl Item.apply k.ctx) ctoks)
     (hcore0 : CoreStep0 ic ic' ctoks)
     (hbodyA : ∀ t ∈ argvWithCore k pre post ctoks calls2, t ≠ ['-', '-']) :
     programParse ic reg (argvWithCore k pre post ctoks calls2) =
@@ -297,7 +297,7 @@ theorem program_with_core (ic ic' : Ctx) (reg : List Ctx) (k : Call) (pre post :
     have h1 := corePass_with ic ic [] k.tname
       (pre.flatMap Item.toks ++ (ctoks ++ (post.flatMap Item.toks ++ calls2.flatMap Call.toks)))
       (coreStep0_nil ic) hm hnf hf hi hm (by simpa [argvWithCore] using hbodyA)
-    have h2 := taskPass_with_core ic ic' reg k pre post calls2 ctoks hfl hk hok hpre hcore hbodyA
+    have h2 := taskPass_with_core ic ic' reg k pre post calls2 ctoks hfl hk hok hcore hbodyA
     unfold programParse
     have e : argvWithCore k pre post ctoks calls2 = [] ++ k.tname ::
         (pre.flatMap Item.toks ++ (ctoks ++ (post.flatMap Item.toks ++ calls2.flatMap Call.toks))) := rfl
